@@ -310,26 +310,20 @@ def harvest_leg(ctx):
     reports, problems = [], []
     for pre in (export_zones, export_far_zones):
         pre(ctx)
+    import triage
     for p in props:
-        procs = []
+        jobs = []
         for i in range(n):
             out = os.path.join(ctx["outdir"], f"C03.harvest.{p}.{i}.json")
-            if os.path.exists(out):
-                os.remove(out)
             cmd = [binary, "run", p, "--tier", "quick", "--seed", str(ctx["seed"]), "--shard", f"{i}/{n}", "--out", out, "--build", "chk", "--scale", scale]
-            procs.append((i, out, subprocess.Popen(cmd, cwd=ctx["verif"], stdout=subprocess.DEVNULL, stderr=subprocess.DEVNULL)))
-        for i, out, pr in procs:
-            try:
-                pr.wait(timeout=3600)
-            except subprocess.TimeoutExpired:
-                pr.kill()
-                problems.append({"shard": i, "build": f"harvest:{p}", "kind": "watchdog"})
-                continue
-            if pr.returncode != 0 or not os.path.exists(out):
-                problems.append({"shard": i, "build": f"harvest:{p}", "kind": f"exit {pr.returncode}"})
-                continue
-            r = json.load(open(out))
-            viol = []
+            jobs.append({"shard": i, "nshards": n, "build": "chk", "cmd": cmd, "out": out})
+        rs, ps = triage.run_procs(jobs, ctx["verif"], "C03", f"workload of {p}", "quick", ctx["seed"], timeout=3600, log=ctx["log"])
+        for q in ps:
+            q["build"] = f"harvest:{p}"
+        problems += ps
+        for r in rs:
+            i = r["shard"]
+            viol = [v for v in r.get("violations", []) if "/C03.death/" in v["sig"]]
             for b in r.get("broken", []):
                 viol.append({"sig": f"C03/C03.broken/call/{b['key']}", "count": b["count"],
                              "witnesses": [{"clause": "C03.broken", "op": "call", "shape": b["key"],
@@ -337,7 +331,7 @@ def harvest_leg(ctx):
                                             "got": b["message"], "expected": "a value or a Type/Range/Syntax error", "case_idx": b["case_idx"]}]})
             reports.append({"evaluations": r["evaluations"], "distinct_nontrivial": 0, "counters": {f"harvest/{p}/cases": r.get("cases", 0)},
                             "samples": [], "violations": viol, "shard": i, "nshards": n, "seed": ctx["seed"], "tier": "quick",
-                            "build": f"harvest:{p}", "harness_errors": []})
+                            "build": f"harvest:{p}", "harness_errors": [], "max_case_ms": r.get("max_case_ms", 0), "notes": r.get("notes", []) if viol and not r.get("broken") else []})
     return reports, problems
 
 
